@@ -47,7 +47,7 @@ CHECKS = {
    text="The unmodified boxcar.rs is compiled into a loom harness (its atomics resolve to shims over loom's); for each body (push,push || push+announce || reader; prefill to a bucket boundary then push || extend || snapshot reader, also with an over-reporting iterator; two extends racing to allocate one bucket; capacities 0/1/40, 1-2 columns) loom enumerates every execution its memory model admits (quick: preemption bound 3 where stated, thorough: unbounded or bound 4) and each execution is judged: indices distinct and gap-free, every lookup None or a complete item of the owning push (value and all columns), completed pushes visible to every happens-after lookup forever at the same index, count monotone and >= completed pushes, snapshot iterator consecutive.",
    note="Bounded to 3 threads and 1-3 operations each; bodies with a preemption bound are exhaustive only up to that bound (reported); explored with payload tracking off so that the value oracle, not the race detector, decides."),
  "C09": dict(engine="e3", technique="loom: exhaustive exploration of the real boxcar.rs with happens-before tracking of every payload cell and of bucket initialisation",
-   text="Same bodies as C08 with tracking on: every slot/column access through UnsafeCell::get() and every use of a bucket's flag array is reported to a per-address loom cell, so any pair of accesses not ordered by the executed atomics with their declared orderings fails the execution - under the C11 model, not the host hardware; the final drop of the vector is included. The parts of the statement outside boxcar.rs (worker result list, matcher scratch) are reachable only through Arc<Mutex<Worker>> guards in safe code; the scheduler checks monitor run overlap and per-thread matcher use.",
+   text="Same bodies as C08 with tracking on: every slot/column access through UnsafeCell::get() and every use of a bucket's flag array is reported to a per-address loom cell, so any pair of accesses not ordered by the executed atomics with their declared orderings fails the execution - under the C11 model, not the host hardware; the final drop of the vector is included. The parts of the statement outside boxcar.rs (worker result list, matcher scratch) are reachable only through Arc<Mutex<Worker>> guards in safe code; in addition the check runs the controlled-scheduler scenarios with two worker threads and judges every execution with two monitors: background runs never overlap, and every matcher scratch slot is used by exactly one pool thread (and never from outside the pool).",
    note="loom cannot execute parking_lot/rayon, so worker.rs/lib.rs are not explored at memory-model level (type-system argument + SC monitors); column reads through raw pointers are covered by the C08 value oracle rather than by tracking."),
  "C06": dict(engine="e2", technique=E2T+"; snapshot-consistency monitors after every tick",
    text="Scenario families (pattern edit / restart between ticks, two injector threads pushing and batch-extending, pools of 1 and 2 threads, 1-2 columns) are executed on a fresh real Nucleo under every schedule with at most the stated number of preemptions (quick: 0 on the large scripts, 1 on the small ones; thorough: 1 and 2); writers are suspended between reserving an index and publishing it, the order in which pool threads report in-flight items is an owned environment choice. After every tick the snapshot is judged: every match published (checked accessor before any unchecked one; a cfg-gated probe reports an unchecked dereference of an unpublished item; a crashing child is reported with its schedule), no duplicates, scores equal to the snapshot pattern on a reference matcher, exactness against the published set, documented order.",
